@@ -59,6 +59,9 @@ def sig_oracle(modn=(), int_msg=False, blocks=False, ok_malleations=(), extra=No
             out.probe('legal-malleation')
         if 'statements-swapped' in s.notes:
             ch.append('stmt')
+        for nt in s.notes:
+            if nt.startswith('coordinated-'):
+                ch.append(nt)
         nkey = sum(1 for f in ch if f in KEYFIELDS)
         if ((nkey and any(f not in KEYFIELDS for f in ch)) or nkey >= 2) and s.scheme not in ('pokor', 'sokor'):
             # the adversary replaced key material and signature together, or several key components
@@ -125,7 +128,8 @@ SCHEMES.update({
                 sig_oracle(int_msg=True, modn=('r',)), pc=True, opts=imsg),
     'clb': Spec('C05', 4, dict(x='g2', y='g2', a='g1', b='g1', c='g1', msg='bytes'),
                 sig_oracle(int_msg=True, blocks=True), pc=True, opts=lopt,
-                extra_faults=[('z0', 'v_dbl'), ('A0', 'v_rand'), ('B0', 'flip'), ('z0', 'flip'), ('A1', 'v_neg'), ('B1', 'v_dbl')]),
+                extra_faults=[('z0', 'v_dbl'), ('A0', 'v_rand'), ('B0', 'flip'), ('z0', 'flip'), ('A1', 'v_neg'), ('B1', 'v_dbl'),
+                              ('pairA', 'v_swap'), ('pairA', 'v_shift'), ('pairB', 'v_swap'), ('pairB', 'v_shift')]),
     'pss': Spec('C05', 4, dict(g='g2', x='g2', y='g2', a='g1', b='g1', m='bn'), sig_oracle(modn=('m',), ok_malleations=NEG2), pc=True,
                 opts=imsg, extra_faults=RER),
     'psb': Spec('C05', 4, dict(g='g2', x='g2', y0='g2', a='g1', b='g1', m0='bn'), sig_oracle(modn=('m0', 'm1', 'm2'), ok_malleations=NEG2), pc=True,
@@ -305,11 +309,12 @@ def o_ped(s, ctx, v, out):
 
 def aggopts(rng):
     # cls + 1 is the Damgard-Jurik parameter s; s = 3 is drawn rarely (known finding: decryption is wrong there)
-    return dict(k=rng.randint(1, 4), cls=rng.choice([0, 0, 0, 0, 1, 1, 1, 1, 2]), n=rng.choice([0, 0, 1, 2]))
+    return dict(k=rng.randint(1, 4), cls=rng.choice([0, 0, 0, 0, 1, 1, 1, 1, 2]), n=rng.choice([0, 0, 1, 2]), dup=rng.below(2))
 
 
 AGGF = [('c0', 'drop'), ('c1', 'dup'), ('c0', 'dup'), ('c2', 'drop'), ('c1', 'drop'), ('c3', 'dup')]
-GTH = [('g0', k) for k in P.GT_FAULTS] + [('g1', k) for k in P.GT_FAULTS] + [('g2', 'v_rand'), ('g3', 'v_inv')]
+GTH = ([('g0', k) for k in P.GT_FAULTS] + [('g1', k) for k in P.GT_FAULTS] + [('g2', k) for k in P.GT_FAULTS] +
+       [('g3', 'v_inv'), ('g3', 'v_negfp'), ('g3', 'v_rand')])
 
 SCHEMES.update({
     'ghpe': Spec('C06', 7, dict(), o_agg(lambda s: s.key['n'] ** (1 + int(s.opts.get('cls', 0)) % 3)), opts=aggopts, extra_faults=AGGF),
@@ -323,7 +328,7 @@ SCHEMES.update({
                    opts=lambda rng: dict(cls=rng.choice([0, 0, 1]), klen=rng.choice([16, 32, 48]), k=rng.below(8))),
     'mt': Spec('C06', 6, dict(d0='bn', d1='bn', e0='bn', e1='bn'), o_mt, opts=lambda rng: dict(cls=rng.choice([0, 0, 0, 1]))),
     'pdpub': Spec('C06', 5, dict(), o_pd, pc=True, extra_faults=GTH, weight=6),
-    'lvpub': Spec('C06', 5, dict(), o_pd, pc=True, extra_faults=GTH[:16], weight=6),
+    'lvpub': Spec('C06', 5, dict(), o_pd, pc=True, extra_faults=[x for x in GTH if x[0] in ('g0', 'g1')], weight=6),
     'pdprv': Spec('C06', 4, dict(), o_pd, pc=True, extra_faults=GTH, weight=6),
     'lvprv': Spec('C06', 4, dict(), o_pd, pc=True, extra_faults=GTH, weight=6),
     'pbpsi': Spec('C06', 4, dict(), o_pbpsi, pc=True, weight=6,
@@ -390,11 +395,14 @@ SCHEMES.update({
     'smlers': Spec('C05', 5, dict(pp='ec', td='bn', h0='ec', pk0='ec', sc00='bn', sc01='bn', sr00='bn', sr01='bn', tau0='ec', c00='bn',
                                   c01='bn', r00='bn', r01='bn', tau1='ec', c10='bn', msg='bytes'),
                    sig_oracle(), opts=lambda rng: dict(k=rng.below(3))),
-    'cmlhs': Spec('C05', 5, dict(r='g1', s='g2', as0='g1', as1='g1', pk0='g2', pk1='g2', y0='g2', y1='g2', m='bn'),
-                  sig_oracle(modn=('m',), vers=('ver', 'onv')), pc=True, weight=6,
+    'cmlhs': Spec('C05', 5, dict(r='g1', s='g2', as0='g1', as1='g1', pk0='g2', pk1='g2', y0='g2', y1='g2', m='bn', z0='g2', z1='g2',
+                                 sig0='g1', sig1='g1', sr0='bn', ss0='bn', sr1='bn', ss1='bn'),
+                  sig_oracle(modn=('m',), vers=('ver', 'onv'),
+                             # ECDSA variant: (r, n - s) is the usual equivalent signature
+                             ok_malleations=(('ss0:v_negmod',), ('ss1:v_negmod',), ('ss0:v_negmod', 'ss1:v_negmod'))), pc=True, weight=6,
                   opts=lambda rng: dict(cls=rng.below(2), ord=rng.below(1 << 16))),
     'mpss': Spec('C05', 4, dict(a='g1', b0='g1', b1='g1', m0='bn', m1='bn'), o_mpss, pc=True, weight=6),
-    'shpe': Spec('C06', 4, dict(ct='bn'), o_shpe, opts=lambda rng: dict(cls=rng.below(2), n=rng.choice([0, 0, 1, 2])), weight=6),
+    'shpe': Spec('C06', 4, dict(ct='bn'), o_shpe, opts=lambda rng: dict(cls=rng.below(2), n=rng.choice([0, 0, 1, 2]), dup=rng.below(2)), weight=6),
     'mpcg1': Spec('C06', 5, dict(l1='bn', d1='g1'), o_match, pc=True, weight=5),
     'mpcpc': Spec('C06', 5, dict(d1='g1', e1='g2'), o_match, pc=True, weight=5),
 })
